@@ -9,6 +9,7 @@ import (
 	"os"
 	"path/filepath"
 	"reflect"
+	"runtime"
 	"sort"
 	"strings"
 	"sync"
@@ -21,6 +22,7 @@ import (
 	pb "github.com/akrennmair/updog/proto/updog/v1"
 	"github.com/akrennmair/updog/verifharness/gen"
 	"github.com/akrennmair/updog/verifharness/ix"
+	"github.com/akrennmair/updog/verifharness/mon"
 	"github.com/akrennmair/updog/verifharness/oracle"
 	"github.com/akrennmair/updog/verifharness/vf"
 	"github.com/anishathalye/porcupine"
@@ -63,14 +65,18 @@ type c04Config struct {
 	// first call is a group-by query or a schema read: the first overlapping uses of a fresh index are where lazily
 	// initialised shared state (sorted value lists, decoded bitmaps, memoised schema) is raced.
 	Repeat int `json:"repeat,omitempty"`
+	// WideOnly: the goroutines draw from the last WideQueries entries of the pool only (operators of eight operands that
+	// are operators of four to six operands themselves)
+	WideOnly bool `json:"wide_only,omitempty"`
 }
 
 type c04Spec struct {
-	Index   string       `json:"index"`
-	Queries []c04Query   `json:"queries"`
-	Schema  []oracle.Row `json:"schema_rows"` // rows to derive the expected schema from (small projection)
-	Configs []c04Config  `json:"configs"`
-	Seed    int64        `json:"seed"`
+	WideQueries int          `json:"wide_queries"` // that many entries at the end of Queries are the wide nested ones
+	Index       string       `json:"index"`
+	Queries     []c04Query   `json:"queries"`
+	Schema      []oracle.Row `json:"schema_rows"` // rows to derive the expected schema from (small projection)
+	Configs     []c04Config  `json:"configs"`
+	Seed        int64        `json:"seed"`
 }
 
 type c04ConfigResult struct {
@@ -182,7 +188,26 @@ func overlapStats(spans []span) (pairs int64, maxInFlight int) {
 // ---------------------------------------------------------------------------
 // child: concurrent Execute/GetSchema on one index (built with -race)
 
+// c04Progress counts completed calls of the index child; its watchdog turns "nothing has completed for 100 seconds" into
+// a goroutine dump on stderr and exit status 97 (a deadlock among the calls would otherwise cost the child's whole
+// time budget; the verdict is made by the supervisor from the dump, not from the elapsed time).
+var c04Progress atomic.Int64
+
 func workerC04Index(args []string) int {
+	go func() {
+		last, since := int64(-1), time.Now()
+		for {
+			time.Sleep(2 * time.Second)
+			if n := c04Progress.Load(); n != last {
+				last, since = n, time.Now()
+			} else if time.Since(since) > 100*time.Second {
+				buf := make([]byte, 8<<20)
+				buf = buf[:runtime.Stack(buf, true)]
+				fmt.Fprintf(os.Stderr, "\nC04-NO-PROGRESS: no call has completed for 100 s; goroutine dump follows\n\n%s\n", buf)
+				os.Exit(97)
+			}
+		}
+	}()
 	var spec c04Spec
 	if err := readSpec(args[0], &spec); err != nil {
 		fmt.Fprintln(os.Stderr, err)
@@ -292,12 +317,15 @@ func c04RunConfig(spec *c04Spec, cfg c04Config) c04ConfigResult {
 					}
 					continue
 				}
-				qi := rng.Intn(len(spec.Queries))
+				qi := rng.Intn(len(spec.Queries) - spec.WideQueries)
+				if cfg.WideOnly && spec.WideQueries > 0 {
+					qi = len(spec.Queries) - 1 - rng.Intn(spec.WideQueries)
+				}
 				q := spec.Queries[qi]
 				if cfg.Repeat > 1 && i == 0 {
 					// first call on the fresh index: a group-by query (all goroutines pick among the same few)
 					for try := 0; try < 50 && len(q.GB) == 0; try++ {
-						qi = rng.Intn(len(spec.Queries))
+						qi = rng.Intn(len(spec.Queries) - spec.WideQueries)
 						q = spec.Queries[qi]
 					}
 				}
@@ -320,6 +348,7 @@ func c04RunConfig(spec *c04Spec, cfg c04Config) c04ConfigResult {
 				p, msg, stack := vf.Try(func() { r, err = idx.Execute(uq) })
 				t1 := time.Since(start).Nanoseconds()
 				spans[g] = append(spans[g], span{t0, t1})
+				c04Progress.Add(1)
 				orders[g] = append(orders[g], atomic.AddInt64(&seq, 1))
 				execs++
 				localShapes[q.E.Shape()] = true
@@ -615,7 +644,12 @@ func c04Dataset(rng *rand.Rand, rows int) *gen.Dataset {
 	return ds
 }
 
-func c04Pool(rng *rand.Rand, ds *gen.Dataset, n int) []c04Query {
+func c04Pool(rng *rand.Rand, ds *gen.Dataset, n int, wideN ...int) []c04Query {
+	wide := 0
+	if len(wideN) > 0 {
+		wide = wideN[0]
+		n += wide
+	}
 	cols := ds.ColNames()
 	// a small leaf alphabet so that sub-expressions, hits, misses and evictions overlap between goroutines
 	var leaves []*oracle.Expr
@@ -644,6 +678,23 @@ func c04Pool(rng *rand.Rand, ds *gen.Dataset, n int) []c04Query {
 			e = oracle.Not(oracle.And(a, oracle.Not(b)))
 		default:
 			e = gen.Expr(rng, ds, cols, 3, 3)
+		}
+		if wide > 0 && len(out) >= n-wide {
+			// wide nodes whose operands are wide nodes themselves: eight 4-6-operand operators under one operator (whatever
+			// evaluates operands side by side meets nesting and many operands at once)
+			top := &oracle.Expr{Op: []byte{'&', '|'}[rng.Intn(2)]}
+			for k := 0; k < 8; k++ {
+				inner := &oracle.Expr{Op: []byte{'&', '|'}[(k+len(out))%2]}
+				for j := 0; j < 4+rng.Intn(3); j++ {
+					l := pick()
+					if rng.Intn(4) == 0 {
+						l = oracle.Not(l)
+					}
+					inner.Kids = append(inner.Kids, l)
+				}
+				top.Kids = append(top.Kids, inner)
+			}
+			e = top
 		}
 		var gb []string
 		if rng.Intn(4) == 0 {
@@ -693,7 +744,7 @@ func c04Index(r *vf.Run) {
 		return
 	}
 	containerKinds(r, path)
-	spec := c04Spec{Index: path, Queries: c04Pool(rng, ds, 150), Seed: r.Seed}
+	spec := c04Spec{Index: path, Queries: c04Pool(rng, ds, 150, 12), WideQueries: 12, Seed: r.Seed}
 	// the schema oracle only needs one row per distinct (column,value)
 	seen := map[string]bool{}
 	for _, row := range ds.Rows {
@@ -720,6 +771,9 @@ func c04Index(r *vf.Run) {
 			spec.Configs = append(spec.Configs, c04Config{Name: fmt.Sprintf("fresh-first-use/g16/%s/%s", cache, mode), Goroutines: 16, Cache: cache, Mode: mode, PerG: 3, Repeat: r.Pick(25, 120)})
 		}
 	}
+	for _, cache := range []string{"none", "tiny"} {
+		spec.Configs = append(spec.Configs, c04Config{Name: fmt.Sprintf("wide-nested/g32/%s/ondemand", cache), Goroutines: 32, Cache: cache, Mode: ix.OpenOnDemand, PerG: r.Pick(8, 40), WideOnly: true})
+	}
 	specPath := filepath.Join(dir, "spec.gob")
 	if err := writeSpec(specPath, spec); err != nil {
 		r.Inconclusive("cannot write the child's case specification: " + err.Error())
@@ -733,6 +787,15 @@ func c04Index(r *vf.Run) {
 		res := runChild(r, binPath("vcheck.race"), []string{"worker", "c04-index", specPath}, childOpts{Timeout: 30 * time.Minute, RaceLog: logp})
 		if res.TimedOut {
 			hangVerdict(r, rid, res, nil)
+			continue
+		}
+		if res.Code == 97 && strings.Contains(res.Stderr, "C04-NO-PROGRESS") {
+			if cause := mon.ClassifyStalledDump(res.Stderr); cause != "" {
+				r.Violation(rid, "hang", map[string]any{"blocked": cause, "goroutine_dump": tail(res.Stderr, 30000),
+					"explanation": "no Execute/GetSchema call of any goroutine completed for 100 seconds; the dump shows where they are parked"})
+			} else {
+				r.Inconclusive(rid + ": no call completed for 100 s, but no goroutine is parked inside updog/bbolt code")
+			}
 			continue
 		}
 		nraces := checkRaceLog(r, rid, logp)
